@@ -435,19 +435,33 @@ func (g G) refName(exotic bool) string {
 // entries pointing at the level below; the bottom level holds breadth
 // entries of one blob. It returns the top tree.
 func AddBomb(w *World, depth, breadth int, blob *Object, tag string) *Object {
+	levels := AddBombLevels(w, depth, breadth, blob, tag, nil)
+	return levels[len(levels)-1]
+}
+
+// AddBombLevels is AddBomb with optional direct entries at chosen levels:
+// extras[level] lists entries (named so that they sort after the subtree
+// entries) that are added to the tree of that level (level 0 = bottom).
+// It returns the tree of every level, bottom first.
+func AddBombLevels(w *World, depth, breadth int, blob *Object, tag string, extras map[int][]TreeEntry) []*Object {
+	var levels []*Object
 	var es []TreeEntry
 	for i := 0; i < breadth; i++ {
 		es = append(es, TreeEntry{Mode: 0o100644, Name: fmt.Sprintf("f%03d%s", i, tag), OID: blob.ID})
 	}
+	es = append(es, extras[0]...)
 	SortTreeEntries(es)
 	cur := w.Add(NewObject(KTree, EncodeTree(es)))
+	levels = append(levels, cur)
 	for d := 1; d < depth; d++ {
 		var ds []TreeEntry
 		for i := 0; i < breadth; i++ {
 			ds = append(ds, TreeEntry{Mode: 0o040000, Name: fmt.Sprintf("d%03d%s", i, tag), OID: cur.ID})
 		}
+		ds = append(ds, extras[d]...)
 		SortTreeEntries(ds)
 		cur = w.Add(NewObject(KTree, EncodeTree(ds)))
+		levels = append(levels, cur)
 	}
-	return cur
+	return levels
 }
